@@ -109,6 +109,8 @@ static inline void chk1(Trk &t, L got, L want, L tol, int line, const char *what
     t.maxr = r;
     g_dirty = true;
   }
+  if ((t.n & 0x3fff) == 0)
+    g_dirty = true;  // refresh the published comparison counts now and then
   if (t.asserted && !(r <= 1.0)) {
     publish();
     char b[400];
@@ -1524,7 +1526,7 @@ static void lin3_frame(const FrameCase &c, pbt::Ctx &ctx)
       rReg = std::max(rReg, ratio_of(dx[i], dxw[i], tolU));
       rFb = std::max(rFb, ratio_of(dx[i], dxf[i], tol));
     }
-    if (rFb <= 1.0 || rFb <= rReg)
+    if (rFb <= rReg)  // the definition the result is closer to
       check_frame(nm + ".frame(N,up):fallback", F, dxf);
     else {
       RV<3> dy{{F.m[0][1], F.m[1][1], F.m[2][1]}}, dz{{F.m[0][2], F.m[1][2], F.m[2][2]}};
@@ -1537,11 +1539,11 @@ static void lin3_frame(const FrameCase &c, pbt::Ctx &ctx)
 
 static void register_part1()
 {
-  reg<LinCase<2>>("linear2f_algebra", 9000, genLinCase<2>(), lin_algebra<L2f>);
-  reg<LinCase<2>>("linear2d_algebra", 9000, genLinCase<2>(), lin_algebra<L2d>);
-  reg<LinCase<3>>("linear3f_algebra", 9000, genLinCase<3>(), lin_algebra<L3f>);
-  reg<LinCase<3>>("linear3fa_algebra", 9000, genLinCase<3>(), lin_algebra<L3fa>);
-  reg<LinCase<3>>("linear3d_algebra", 9000, genLinCase<3>(), lin_algebra<L3d>);
+  reg<LinCase<2>>("linear2f_algebra", 36000, genLinCase<2>(), lin_algebra<L2f>);
+  reg<LinCase<2>>("linear2d_algebra", 36000, genLinCase<2>(), lin_algebra<L2d>);
+  reg<LinCase<3>>("linear3f_algebra", 36000, genLinCase<3>(), lin_algebra<L3f>);
+  reg<LinCase<3>>("linear3fa_algebra", 36000, genLinCase<3>(), lin_algebra<L3fa>);
+  reg<LinCase<3>>("linear3d_algebra", 36000, genLinCase<3>(), lin_algebra<L3d>);
 }
 static void register_part2()
 {
@@ -1551,16 +1553,16 @@ static void register_part2()
     c.w = std::get<1>(t);
     return c;
   });
-  reg<Rot2Case>("linear2f_rotate", 4000, g2, lin2_rotate<L2f>);
-  reg<Rot2Case>("linear2d_rotate", 4000, g2, lin2_rotate<L2d>);
-  reg<MatP2>("linear2f_orthogonal", 4000, genMatP2(), lin2_orthogonal<L2f>);
-  reg<MatP2>("linear2d_orthogonal", 4000, genMatP2(), lin2_orthogonal<L2d>);
-  reg<Rot3Case>("linear3f_rotate", 5000, genRot3Case(), lin3_rotate<L3f>);
-  reg<Rot3Case>("linear3fa_rotate", 5000, genRot3Case(), lin3_rotate<L3fa>);
-  reg<Rot3Case>("linear3d_rotate", 5000, genRot3Case(), lin3_rotate<L3d>);
-  reg<FrameCase>("linear3f_frame", 5000, genFrameCase(), lin3_frame<L3f>);
-  reg<FrameCase>("linear3fa_frame", 5000, genFrameCase(), lin3_frame<L3fa>);
-  reg<FrameCase>("linear3d_frame", 5000, genFrameCase(), lin3_frame<L3d>);
+  reg<Rot2Case>("linear2f_rotate", 16000, g2, lin2_rotate<L2f>);
+  reg<Rot2Case>("linear2d_rotate", 16000, g2, lin2_rotate<L2d>);
+  reg<MatP2>("linear2f_orthogonal", 16000, genMatP2(), lin2_orthogonal<L2f>);
+  reg<MatP2>("linear2d_orthogonal", 16000, genMatP2(), lin2_orthogonal<L2d>);
+  reg<Rot3Case>("linear3f_rotate", 20000, genRot3Case(), lin3_rotate<L3f>);
+  reg<Rot3Case>("linear3fa_rotate", 20000, genRot3Case(), lin3_rotate<L3fa>);
+  reg<Rot3Case>("linear3d_rotate", 20000, genRot3Case(), lin3_rotate<L3d>);
+  reg<FrameCase>("linear3f_frame", 20000, genFrameCase(), lin3_frame<L3f>);
+  reg<FrameCase>("linear3fa_frame", 20000, genFrameCase(), lin3_frame<L3fa>);
+  reg<FrameCase>("linear3d_frame", 20000, genFrameCase(), lin3_frame<L3d>);
 }
 
 
@@ -2091,16 +2093,16 @@ static void aff3_lookat(const LookCase &c, pbt::Ctx &ctx)
 
 static void register_part3()
 {
-  reg<AffCase<2>>("affine2f_algebra", 11000, genAffCase<2>(), aff_algebra<A2f>);
-  reg<AffCase<3>>("affine3f_algebra", 11000, genAffCase<3>(), aff_algebra<A3f>);
-  reg<AffCase<3>>("affine3fa_algebra", 11000, genAffCase<3>(), aff_algebra<A3fa>);
-  reg<AffCase<3>>("affine3d_algebra", 11000, genAffCase<3>(), aff_algebra<A3d>);
+  reg<AffCase<2>>("affine2f_algebra", 44000, genAffCase<2>(), aff_algebra<A2f>);
+  reg<AffCase<3>>("affine3f_algebra", 44000, genAffCase<3>(), aff_algebra<A3f>);
+  reg<AffCase<3>>("affine3fa_algebra", 44000, genAffCase<3>(), aff_algebra<A3fa>);
+  reg<AffCase<3>>("affine3d_algebra", 44000, genAffCase<3>(), aff_algebra<A3d>);
 }
 static void register_part4()
 {
-  reg<Bld3Case>("affine3f_builders", 6000, genBld3Case(), aff3_builders<A3f>);
-  reg<Bld3Case>("affine3fa_builders", 6000, genBld3Case(), aff3_builders<A3fa>);
-  reg<Bld3Case>("affine3d_builders", 6000, genBld3Case(), aff3_builders<A3d>);
+  reg<Bld3Case>("affine3f_builders", 24000, genBld3Case(), aff3_builders<A3f>);
+  reg<Bld3Case>("affine3fa_builders", 24000, genBld3Case(), aff3_builders<A3fa>);
+  reg<Bld3Case>("affine3d_builders", 24000, genBld3Case(), aff3_builders<A3d>);
   auto g2 = rc::gen::map(rc::gen::tuple(genAngle(), genVec<2>(VMAX), genVec<2>(VMAX)), [](const std::tuple<double, A2, A2> &t) {
     Bld2Case c;
     c.ang = std::get<0>(t);
@@ -2108,10 +2110,10 @@ static void register_part4()
     c.s = std::get<2>(t);
     return c;
   });
-  reg<Bld2Case>("affine2f_builders", 6000, g2, aff2_builders);
-  reg<LookCase>("affine3f_lookat", 6000, genLookCase(), aff3_lookat<A3f>);
-  reg<LookCase>("affine3fa_lookat", 6000, genLookCase(), aff3_lookat<A3fa>);
-  reg<LookCase>("affine3d_lookat", 6000, genLookCase(), aff3_lookat<A3d>);
+  reg<Bld2Case>("affine2f_builders", 24000, g2, aff2_builders);
+  reg<LookCase>("affine3f_lookat", 24000, genLookCase(), aff3_lookat<A3f>);
+  reg<LookCase>("affine3fa_lookat", 24000, genLookCase(), aff3_lookat<A3fa>);
+  reg<LookCase>("affine3d_lookat", 24000, genLookCase(), aff3_lookat<A3d>);
 }
 
 
@@ -2438,9 +2440,6 @@ static void quat_from_matrix(const QMatCase &c, pbt::Ctx &ctx)
     ctx.label(bn[br]);
     const Q got(M.vx, M.vy, M.vz);
     CHKQPM(DY(nm + ".Quaternion(M(q)) " + bn[br]), toRef(got), qr, fl + 16 * eps);
-    // sign convention of each branch: the component computed from t is positive
-    L lead = br == 0 ? got.r : br == 1 ? got.i : br == 2 ? got.j : got.k;
-    PBT_ASSERT_MSG(lead > 0, nm << " " << bn[br] << ": leading component must be positive, got " << show(toRef(got)));
     // padded vectors convert to the unpadded ones the constructor takes
     if (std::is_same<S, float>::value) {
       const LinearSpace3<vec_t<S, 3, true>> Ma = mkLS<LinearSpace3<vec_t<S, 3, true>>>(qmat(qr));
@@ -2652,15 +2651,15 @@ static void quat_slerp(const SlerpCase &c, pbt::Ctx &ctx)
 
 static void register_part5()
 {
-  reg<QAlgCase>("quatf_algebra", 12000, genQAlgCase(), quat_algebra<float>);
-  reg<QAlgCase>("quatd_algebra", 12000, genQAlgCase(), quat_algebra<double>);
-  reg<Rot3Case>("quatf_rotate", 10000, genRot3Case(), quat_rotate<float>);
-  reg<Rot3Case>("quatd_rotate", 10000, genRot3Case(), quat_rotate<double>);
+  reg<QAlgCase>("quatf_algebra", 48000, genQAlgCase(), quat_algebra<float>);
+  reg<QAlgCase>("quatd_algebra", 48000, genQAlgCase(), quat_algebra<double>);
+  reg<Rot3Case>("quatf_rotate", 40000, genRot3Case(), quat_rotate<float>);
+  reg<Rot3Case>("quatd_rotate", 40000, genRot3Case(), quat_rotate<double>);
 }
 static void register_part6()
 {
-  reg<QMatCase>("quatf_from_matrix", 8000, genQMatCase(), quat_from_matrix<float>);
-  reg<QMatCase>("quatd_from_matrix", 8000, genQMatCase(), quat_from_matrix<double>);
+  reg<QMatCase>("quatf_from_matrix", 32000, genQMatCase(), quat_from_matrix<float>);
+  reg<QMatCase>("quatd_from_matrix", 32000, genQMatCase(), quat_from_matrix<double>);
   auto gy = rc::gen::map(rc::gen::tuple(genAngle(), genAngle(), genAngle(), genVec<3>(VMAX)), [](const std::tuple<double, double, double, A3> &t) {
     YprCase c;
     c.yaw = std::get<0>(t);
@@ -2669,10 +2668,10 @@ static void register_part6()
     c.w = std::get<3>(t);
     return c;
   });
-  reg<YprCase>("quatf_yaw_pitch_roll", 6000, gy, quat_ypr<float>);
-  reg<YprCase>("quatd_yaw_pitch_roll", 6000, gy, quat_ypr<double>);
-  reg<SlerpCase>("quatf_slerp", 9000, genSlerpCase(), quat_slerp<float>);
-  reg<SlerpCase>("quatd_slerp", 9000, genSlerpCase(), quat_slerp<double>);
+  reg<YprCase>("quatf_yaw_pitch_roll", 24000, gy, quat_ypr<float>);
+  reg<YprCase>("quatd_yaw_pitch_roll", 24000, gy, quat_ypr<double>);
+  reg<SlerpCase>("quatf_slerp", 36000, genSlerpCase(), quat_slerp<float>);
+  reg<SlerpCase>("quatd_slerp", 36000, genSlerpCase(), quat_slerp<double>);
 }
 
 static void register_properties()
